@@ -28,8 +28,14 @@ def gen_timer_scenario(rng, sid):
                     acts.append("C %d" % rng.randrange(3))
             lines.append("ROW %d %d %s" % (p, len(acts), " ".join(acts)))
     lines.append("DRAWS")
+    skews = [0.0]
     for n in range(nnodes):
         lines.append("OP ADDNODE %d" % n)
+        if rng.random() < 0.3:
+            # clock skews must not enter the remaining delays of the snapshot's timers
+            sk = rng.choice([0.25, 1.5, 5.0])
+            skews.append(sk)
+            lines.append("OP SKEW %d %d" % (n, f64_bits(sk)))
     for p in range(nprocs):
         lines.append("OP ADDPROC %d %d" % (p, placement[p]))
     lines.append("OP NET DELAY %d" % f64_bits(rng.choice([0.5, 1.0, 1.0])))
@@ -38,12 +44,12 @@ def gen_timer_scenario(rng, sid):
     for _ in range(rng.choice([0, 0, 1, 2])):
         lines.append("OP STEP")
     lines.append("SNAPSHOT")
-    lines += gen_mc.clock_lines([0.0], 40)
+    lines += gen_mc.clock_lines(skews, 40)
     lines += ["PRED INV NONE", "PRED GOAL NOEVENTS", "PRED PRUNE DEPTHGT 12", "PRED COLLECT NONE",
               "RUN BFS FULL 0 %d" % gen_mc.FUEL, "CONTINUE"]
     lines += ["OP STEP"] * 14
     feat = {"timers": True, "override": False, "clock": False, "rand_progs": False, "drop": 0.0, "dupl": 0.0, "corrupt": 0.0,
-            "rand_delay": False, "crash": False, "netops": False, "skew": False, "links": False, "timer_handoff": True}
+            "rand_delay": False, "crash": False, "netops": False, "skew": len(skews) > 1, "links": False, "timer_handoff": True}
     return ("HANDOFF", sid, lines), feat, seed
 
 
